@@ -19,7 +19,11 @@
 // (schema.NewObjectSchema, handler typed map[string]any).  The abstract "unserialized value" of
 // such a call is bound by an INDEPENDENT copy of the scope: the handler's argument is of class
 // Native(input) iff it is reflect.DeepEqual to what that copy's Unserialize returns for the same
-// raw input.
+// raw input.  The OUTPUT scopes of these steps are map-based as well (properties of kinds int, list of
+// string, pattern, struct-mapped sub-object): behaviour "okr" returns conforming data whose in-memory
+// form differs from its serialized form, and the data CallStep returns must be reflect.DeepEqual to
+// what an independent copy of the output scope's Serialize gives for the handler's value.
+//
 // For every session the property's own invariants are evaluated directly on the real
 // observations (judge); under replay the per-goroutine event sequences, ledger, outcomes and
 // initializer counts are also compared with the specification's (differences the property
@@ -35,6 +39,7 @@ import (
 	"os"
 	"path/filepath"
 	"reflect"
+	"regexp"
 	"runtime"
 	"sort"
 	"strconv"
@@ -245,6 +250,160 @@ func refScope(field string) *schema.ScopeSchema {
 	return mapInScope()
 }
 
+// summaryT is the struct a sub-object of the map-based outputs is mapped to.
+type summaryT struct {
+	Lines int64  `json:"lines"`
+	Title string `json:"title"`
+}
+
+func mapOutObject(id, field string) *schema.ObjectSchema {
+	return schema.NewObjectSchema(id, map[string]*schema.PropertySchema{
+		field:    strProp(1, true),
+		"count":  optProp(schema.NewIntSchema(schema.IntPointer(0), nil, nil), nil),
+		"labels": optProp(schema.NewListSchema(schema.NewStringSchema(nil, nil, nil), nil, nil), nil),
+		"filter": optProp(schema.NewPatternSchema(), nil),
+		"summary": optProp(schema.NewStructMappedObjectSchema[summaryT]("summary", map[string]*schema.PropertySchema{
+			"lines": schema.NewPropertySchema(schema.NewIntSchema(nil, nil, nil), nil, true, nil, nil, nil, nil, nil),
+			"title": strProp(0, true)}), nil),
+	})
+}
+
+// mapOutputs builds fresh map-based output scopes under the same two output IDs as outputs().
+func mapOutputs() map[string]*schema.StepOutputSchema {
+	return map[string]*schema.StepOutputSchema{
+		"success": schema.NewStepOutputSchema(schema.NewScopeSchema(mapOutObject("output", "message")), nil, false),
+		"error":   schema.NewStepOutputSchema(schema.NewScopeSchema(mapOutObject("erroroutput", "error")), nil, true),
+	}
+}
+
+// outForm is one concrete value a handler of the map-based step returns.  ser is the serialized form
+// the specification's reading of the schema gives (int64, []any, pattern text, sub-object as a map):
+// checked against an independent Serialize in bindCheck; nil = the output schema rejects the value.
+type outForm struct {
+	name string
+	val  func(f, m string) any
+	ser  func(f, m string) map[string]any
+}
+
+var outForms = map[string][]outForm{
+	// in-memory form = serialized form
+	"ok": {
+		{"plain", func(f, m string) any { return msa{f: m} }, func(f, m string) msa { return msa{f: m} }},
+		{"normal-int-list", func(f, m string) any { return msa{f: m, "count": int64(3), "labels": []any{"a", "b"}} },
+			func(f, m string) msa { return msa{f: m, "count": int64(3), "labels": []any{"a", "b"}} }},
+	},
+	// conforming, but the in-memory form differs from the serialized form
+	"okr": {
+		{"int-as-int", func(f, m string) any { return msa{f: m, "count": 3} },
+			func(f, m string) msa { return msa{f: m, "count": int64(3)} }},
+		{"int-as-uint8", func(f, m string) any { return msa{f: m, "count": uint8(2)} },
+			func(f, m string) msa { return msa{f: m, "count": int64(2)} }},
+		{"list-as-strings", func(f, m string) any { return msa{f: m, "labels": []string{"a", "b"}} },
+			func(f, m string) msa { return msa{f: m, "labels": []any{"a", "b"}} }},
+		{"compiled-pattern", func(f, m string) any { return msa{f: m, "filter": regexp.MustCompile("^a+$")} },
+			func(f, m string) msa { return msa{f: m, "filter": "^a+$"} }},
+		{"struct-sub-object", func(f, m string) any { return msa{f: m, "summary": summaryT{Lines: 7, Title: "t"}} },
+			func(f, m string) msa { return msa{f: m, "summary": msa{"lines": int64(7), "title": "t"}} }},
+		{"all", func(f, m string) any {
+			return msa{f: m, "count": 9, "labels": []string{}, "filter": regexp.MustCompile("x|y"), "summary": summaryT{Title: "u"}}
+		}, func(f, m string) msa {
+			return msa{f: m, "count": int64(9), "labels": []any{}, "filter": "x|y", "summary": msa{"lines": int64(0), "title": "u"}}
+		}},
+	},
+	// declared ID, data the output schema rejects
+	"baddata": {
+		{"too-short", func(f, m string) any { return msa{f: ""} }, nil},
+		{"int-below-minimum", func(f, m string) any { return msa{f: m, "count": -1} }, nil},
+		{"nil", func(f, m string) any { return nil }, nil},
+		{"struct-where-map-declared", func(f, m string) any { return stepOut{Message: m} }, nil},
+		{"undeclared-key", func(f, m string) any { return msa{f: m, "bogus": 1} }, nil},
+		{"required-missing", func(f, m string) any { return msa{"count": int64(1)} }, nil},
+		{"list-of-wrong-items", func(f, m string) any { return msa{f: m, "labels": []any{msa{"a": 1}}} }, nil},
+		{"not-a-list", func(f, m string) any { return msa{f: m, "labels": "a,b"} }, nil},
+		{"pattern-as-text", func(f, m string) any { return msa{f: m, "filter": "^a+$"} }, nil},
+		{"sub-object-incomplete", func(f, m string) any { return msa{f: m, "summary": msa{"lines": int64(1)}} }, nil},
+	},
+}
+
+func outFormsOf(beh string) []outForm {
+	switch beh {
+	case "ok2": // the second output: normal and non-normal forms alike
+		return append(append([]outForm{}, outForms["ok"]...), outForms["okr"]...)
+	case "ok", "okr", "baddata":
+		return outForms[beh]
+	}
+	return outForms["ok"][:1] // undeclared
+}
+
+// handlerOutputMap is what the handlers of the map-based step return (a fresh value every time).
+func handlerOutputMap(beh, name string, variant int) (id string, data any, form string) {
+	if variant < 0 {
+		variant = -variant
+	}
+	fs := outFormsOf(beh)
+	f := fs[variant%len(fs)]
+	form = "mapout/step/" + beh + "/" + f.name
+	switch beh {
+	case "ok2":
+		return "error", f.val("error", "no "+name), form
+	case "undeclared":
+		return "nope", f.val("message", "hi "+name), form
+	}
+	return "success", f.val("message", "hi "+name), form
+}
+
+// serClassMap binds the abstract serialized output of a call on the map-based step: data is of class
+// Native(input) iff it equals what an independent copy of the declared output scope serializes the
+// handler's value to.
+func serClassMap(c callT, variant int, outID string, data any) (cls, wantText string) {
+	if !validIn[c.Input] {
+		return "other", "(input rejected by the schema)"
+	}
+	id, val, _ := handlerOutputMap(c.Beh, names[c.Input], variant)
+	out, declared := mapOutputs()[id]
+	if !declared {
+		return "other", "(undeclared output ID)"
+	}
+	var want any
+	var err error
+	if pi := sup.Guard(func() { want, err = out.Schema().Serialize(val) }); pi != nil {
+		return "other", "reference Serialize panicked: " + pi.Msg
+	}
+	if err != nil {
+		return "other", "reference Serialize: " + err.Error()
+	}
+	if outID == id && reflect.DeepEqual(data, want) {
+		return natives[c.Input], ""
+	}
+	return "other", describe(want)
+}
+
+// describe prints a value with the Go types of its parts (int64(3) and 3 print differently)
+func describe(v any) string {
+	switch t := v.(type) {
+	case map[string]any:
+		keys := make([]string, 0, len(t))
+		for k := range t {
+			keys = append(keys, k)
+		}
+		sort.Strings(keys)
+		parts := []string{}
+		for _, k := range keys {
+			parts = append(parts, k+": "+describe(t[k]))
+		}
+		return "map[string]any{" + strings.Join(parts, ", ") + "}"
+	case []any:
+		parts := []string{}
+		for _, x := range t {
+			parts = append(parts, describe(x))
+		}
+		return "[]any{" + strings.Join(parts, ", ") + "}"
+	case *regexp.Regexp:
+		return "*regexp.Regexp(" + t.String() + ")"
+	}
+	return fmt.Sprintf("%T(%v)", v, v)
+}
+
 // mapForm is one concrete raw input of a map-based scope.  norm is the unserialized value the
 // specification's reading of the schema gives (defaults filled in, int64 / float64 / bool): it is
 // checked against an independent Unserialize in bindCheck; nil = the schema rejects the input.
@@ -298,9 +457,15 @@ var mapForms = map[string][]mapForm{
 		{"small-ints", func(f, n string) any { return msa{f: n, "count": uint8(9), "size": int32(-4), "verbose": 1} },
 			func(f, n string) msa { return msa{f: n, "count": int64(9), "size": int64(-4), "verbose": true} }},
 		{"all-lenient-default-omitted", func(f, n string) any { return msa{f: n, "size": "12", "ratio": 3, "verbose": "off"} },
-			func(f, n string) msa { return msa{f: n, "count": int64(3), "size": int64(12), "ratio": float64(3), "verbose": false} }},
-		{"all-lenient-anymap", func(f, n string) any { return maa{f: n, "count": "10", "size": uint64(8), "ratio": int64(2), "verbose": "yes"} },
-			func(f, n string) msa { return msa{f: n, "count": int64(10), "size": int64(8), "ratio": float64(2), "verbose": true} }},
+			func(f, n string) msa {
+				return msa{f: n, "count": int64(3), "size": int64(12), "ratio": float64(3), "verbose": false}
+			}},
+		{"all-lenient-anymap", func(f, n string) any {
+			return maa{f: n, "count": "10", "size": uint64(8), "ratio": int64(2), "verbose": "yes"}
+		},
+			func(f, n string) msa {
+				return msa{f: n, "count": int64(10), "size": int64(8), "ratio": float64(2), "verbose": true}
+			}},
 	},
 	// (c) rejected by the schema
 	"inv": {
@@ -374,6 +539,9 @@ func formTables() map[string]int {
 	}
 	for _, c := range append(append([]string{}, mapClasses...), "inv") {
 		t["map/"+c] = len(formsOf(c))
+	}
+	for _, b := range []string{"ok", "ok2", "okr", "undeclared", "baddata"} {
+		t["mapout/"+b] = len(outFormsOf(b))
 	}
 	return t
 }
@@ -452,16 +620,18 @@ type event struct {
 	Out   string
 	Ser   string
 	// not part of the trace
-	etype   string
-	untyped bool
-	errText string
-	panicM  string
-	frame   string
-	dataPtr *sdata
-	key     string
-	hstep   string
-	argText string // what the handler of a map-based step got / should have got, for reports
-	wantArg string
+	etype    string
+	untyped  bool
+	errText  string
+	panicM   string
+	frame    string
+	dataPtr  *sdata
+	key      string
+	hstep    string
+	argText  string // what the handler of a map-based step got / should have got, for reports
+	wantArg  string
+	dataText string // what CallStep on the map-based step returned / should have returned
+	wantSer  string
 }
 
 func (e *event) line() map[string]any {
@@ -479,6 +649,7 @@ type proc struct {
 	begun   bool
 	rng     *rand.Rand
 	form    string // the concrete raw input form used (set by the call's goroutine before it returns)
+	oform   string // the concrete handler output form used (map-based step; set by the call's goroutine)
 }
 
 type procKey struct{}
@@ -528,10 +699,12 @@ func (s *session) buildStep(id string) schema.CallableStep {
 	if mapSteps[id] {
 		sig := schema.NewCallableSignal[*sdata, map[string]any](sigID, mapSigScope(), nil,
 			func(ctx context.Context, d *sdata, in map[string]any) { s.mapSignalHandler(ctx, id, d, in) })
-		return schema.NewCallableStepWithSignals[*sdata, map[string]any](id, mapInScope(), outputs(),
+		return schema.NewCallableStepWithSignals[*sdata, map[string]any](id, mapInScope(), mapOutputs(),
 			map[string]schema.CallableSignal{sigID: sig}, nil, nil,
 			func() *sdata { return s.initializer(id) },
-			func(ctx context.Context, d *sdata, in map[string]any) (string, any) { return s.mapStepHandler(ctx, id, d, in) })
+			func(ctx context.Context, d *sdata, in map[string]any) (string, any) {
+				return s.mapStepHandler(ctx, id, d, in)
+			})
 	}
 	if noInit[id] {
 		sig := schema.NewCallableSignal[any, sigIn](sigID, sigScope(), nil,
@@ -668,7 +841,9 @@ func (s *session) mapStepHandler(ctx context.Context, step string, d any, in map
 		dataPtr: asData(d), key: step + "/" + p.call.Run, hstep: step, argText: fmt.Sprintf("%#v", in), wantArg: want})
 	s.record(&event{Ev: "hret", P: p.id})
 	name, _ := in["name"].(string)
-	return handlerOutput(p.call.Beh, name, p.variant)
+	outID, data, form := handlerOutputMap(p.call.Beh, name, p.variant)
+	p.oform = form
+	return outID, data
 }
 
 func (s *session) mapSignalHandler(ctx context.Context, step string, d any, in map[string]any) {
@@ -787,7 +962,12 @@ func (s *session) runCall(p *proc) {
 			ev.errText = err.Error()
 		} else if p.call.Kind == "step" {
 			ev.Out = outID
-			ev.Ser = serClass(p.call.Beh, outData)
+			if mapSteps[p.call.Step] {
+				ev.Ser, ev.wantSer = serClassMap(p.call, p.variant, outID, outData)
+				ev.dataText = describe(outData)
+			} else {
+				ev.Ser = serClass(p.call.Beh, outData)
+			}
 		}
 	}
 	s.record(ev)
@@ -861,9 +1041,9 @@ func (r *resT) miss(drift bool, c callT, class string, extra map[string]any, det
 	r.Mismatches = append(r.Mismatches, mismatch{Sig: sig, Detail: detail, Drift: drift})
 }
 
-// the verdicts that concern the treatment of the raw input
+// the verdicts that concern the treatment of the raw input / of the handler's output value
 var inputClasses = map[string]bool{"handler_skipped": true, "handler_on_invalid": true, "wrong_argument": true,
-	"error_on_valid": true}
+	"error_on_valid": true, "wrong_output": true, "accepts_bad_output": true}
 
 func logLines(log []*event) []map[string]any {
 	out := make([]map[string]any, 0, len(log))
@@ -920,6 +1100,9 @@ func judge(s *session, r *resT) int {
 		r.Evals++
 		if p.form != "" {
 			r.Forms = append(r.Forms, p.form)
+		}
+		if p.oform != "" {
+			r.Forms = append(r.Forms, p.oform)
 		}
 		c := p.call
 		sit := situation(c)
@@ -980,6 +1163,9 @@ func judge(s *session, r *resT) int {
 					wantOut = "error"
 				}
 				if ret.Out != wantOut || ret.Ser != natives[c.Input] {
+					if ret.dataText != "" {
+						od["returned_data"], od["serialized_output"], od["output_form"] = ret.dataText, ret.wantSer, p.oform
+					}
 					r.miss(false, c, "wrong_output", nil, det(p, od))
 				}
 			}
@@ -1083,6 +1269,10 @@ func runReplay(c caseT, r *resT) {
 		}
 		if mapSteps[cl.Step] != contains(c.MapSteps, cl.Step) {
 			r.BindError = "step " + cl.Step + ": specification's MapSteps " + strings.Join(c.MapSteps, ",") + " differ from the harness's"
+			return
+		}
+		if cl.Beh == "okr" && !mapSteps[cl.Step] {
+			r.BindError = "behaviour okr is bound for map-based output scopes only; call on step " + cl.Step
 			return
 		}
 		if (cl.Input == "vd" || cl.Input == "vl") && !mapSteps[cl.Step] {
@@ -1382,6 +1572,9 @@ func runRandom(c caseT, r *resT) {
 			if (calls[i].Input == "vd" || calls[i].Input == "vl") && !mapSteps[calls[i].Step] {
 				calls[i].Input = "va"
 			}
+			if calls[i].Kind == "step" && mapSteps[calls[i].Step] && calls[i].Beh == "ok" && rng.Intn(2) == 0 {
+				calls[i].Beh = "okr"
+			}
 		}
 		s := newSession(calls, false, c.Seed*100003+int64(k), rng.Intn(1<<16), nil)
 		for _, p := range s.procs {
@@ -1593,6 +1786,60 @@ func bindCheckMap() {
 				}
 			}
 		}
+	}
+	for _, beh := range []string{"ok", "ok2", "okr", "undeclared", "baddata"} {
+		for i := range outFormsOf(beh) {
+			f := outFormsOf(beh)[i]
+			where := fmt.Sprintf("map-based output, behaviour %s form %d (%s)", beh, i, f.name)
+			id, val, _ := handlerOutputMap(beh, "alpha", i)
+			out, declared := mapOutputs()[id]
+			if beh == "undeclared" {
+				if declared {
+					bindErr = where + ": the output ID is declared"
+				}
+				continue
+			}
+			if !declared {
+				bindErr = where + ": the output ID is not declared"
+				continue
+			}
+			verr := out.Validate(val)
+			if beh == "baddata" {
+				if verr == nil {
+					bindErr = where + " conforms to the output schema"
+				}
+				continue
+			}
+			field, msg := "message", "hi alpha"
+			if beh == "ok2" {
+				field, msg = "error", "no alpha"
+			}
+			ser, err := out.Schema().Serialize(val)
+			want := f.ser(field, msg)
+			if verr != nil || err != nil || !reflect.DeepEqual(ser, any(want)) {
+				bindErr = fmt.Sprintf("%s: Validate %v, Serialize gives %s, %v; the table's serialized form is %s", where, verr, describe(ser), err, describe(want))
+				continue
+			}
+			c := callT{Kind: "step", Step: "s2", Input: "va", Beh: beh}
+			if got, _ := serClassMap(c, i, id, any(want)); got != "nva" {
+				bindErr = where + ": the reference does not recognise the serialized form"
+			}
+			_, fresh, _ := handlerOutputMap(beh, "alpha", i)
+			got, _ := serClassMap(c, i, id, fresh)
+			normal := reflect.DeepEqual(fresh, any(want))
+			if normal != (got == "nva") {
+				bindErr = where + ": the reference's verdict on the handler's own value is inconsistent"
+			}
+			if beh == "ok" && !normal {
+				bindErr = where + ": the in-memory form is not the serialized form"
+			}
+			if beh == "okr" && normal {
+				bindErr = where + ": the in-memory form equals the serialized form"
+			}
+		}
+	}
+	if reflect.TypeOf(msa{}) != mapOutputs()["success"].Schema().ReflectedType() {
+		bindErr = "the map-based output scope does not reflect to map[string]any"
 	}
 	if reflect.TypeOf(msa{}) != mapInScope().ReflectedType() {
 		bindErr = "the map-based input scope does not reflect to map[string]any"
